@@ -6,7 +6,18 @@ p = '/verif/DESIGN.md'
 s = open(p).read()
 def gen(cmd):
     return subprocess.run(cmd, capture_output=True, text=True, check=True).stdout.strip()
+def sizes():
+    import json, glob
+    rows = ["| prop | sub-properties (evaluations each) | quick evaluations | distinct non-trivial | wall (this run) |", "|---|---|---|---|---|"]
+    for f in sorted(glob.glob('/verif/evidence/C*.json')):
+        e = json.load(open(f))
+        c = e['coverage']
+        subs = ", ".join("%s (%s%s)" % (x['sub'], f"{x['evaluations']:,}".replace(',', ' '), ", exhaustive" if x.get('exhaustive') else "") for x in c.get('per_sub', []))
+        rows.append("| %s | %s | %s | %s | %.0f s |" % (e['property_id'], subs, f"{c['evaluations']:,}".replace(',', ' '), f"{c['distinct_nontrivial']:,}".replace(',', ' '), e.get('wall_s', 0)))
+    return "\n".join(rows)
+
 parts = {
+    'sizes': sizes(),
     'findings': gen(['python3', '/verif/tools/gen_findings_md.py']),
     'seeds': gen(['python3', '/verif/tools/finalize_seeds.py']),
 }
